@@ -22,6 +22,10 @@ HEADERS = ["a", "b", "c", "n", "the name", "x_y"]
 FIELDS = ["count_lines", "line_number", "count_scans", "identity", "valid", "stopped", "delimiter", "quotechar", "count_matches"]
 
 
+class OutOfClass(Exception):
+    pass
+
+
 # ---------------------------------------------------------------- chunks, source, class
 
 def lit(s):
@@ -98,6 +102,52 @@ def wf(chunks):
 
 def adjacent_refs(chunks):
     return any("lit" not in a and "lit" not in b for a, b in zip(chunks, chunks[1:]))
+
+
+_NAME = r"'[^']+'|[^.$\s!^:,;%()\-+@#{}\[\]&<>/|?\"']+"
+_REF = None
+
+
+def parse_template(s):
+    """the chunks of a print string that lies in the theorem's class (inverse of `source`); OutOfClass otherwise"""
+    global _REF
+    import re
+
+    if _REF is None:
+        _REF = re.compile(r"\$\.(variables|headers|metadata|csvpath)\.(" + _NAME + r")(?:\.(" + _NAME + r"))?")
+    chunks, lit_, i = [], "", 0
+
+    def unq(x):
+        return (x[1:-1], True) if x.startswith("'") else (x, False)
+
+    while i < len(s):
+        if s[i] != "$":
+            lit_ += s[i]
+            i += 1
+            continue
+        m = _REF.match(s, i)
+        if not m:
+            raise OutOfClass("a `$` that does not start a local reference")
+        if lit_:
+            chunks.append(lit(lit_))
+            lit_ = ""
+        nm, nq = unq(m.group(2))
+        if m.group(3) is not None:
+            tr, tq = unq(m.group(3))
+            chunks.append(ref(m.group(1), nm, nq, tr, tq))
+        else:
+            chunks.append(ref(m.group(1), nm, nq))
+        i = m.end()
+        if s[i:i + 2] == "..":
+            lit_ = "."
+            i += 2
+        elif s[i:i + 1] == ".":
+            raise OutOfClass("a single dot after a reference")
+    if lit_:
+        chunks.append(lit(lit_))
+    if not wf(chunks) or source(chunks) != s:
+        raise OutOfClass("print string outside the class of C16's theorem")
+    return chunks
 
 
 # ---------------------------------------------------------------- generators
@@ -211,10 +261,6 @@ def gen_unit(seed, i):
 
 
 # ---------------------------------------------------------------- reference semantics (Python side)
-
-class OutOfClass(Exception):
-    pass
-
 
 def spec_value(c, env):
     """the value the reference stands for, where the documentation settles it"""
